@@ -139,6 +139,14 @@ def run_relational(shard, rec):
             gen.used = saved
             if m is not None and m["items"] is not None:
                 items, kind = m["items"], k
+        if rng.random() < 0.25 and "label" in o.by_short:
+            # a printable non-ASCII value: whether it is acceptable depends on the generation of the member's schema,
+            # which must be judged the same way alone and inside the group
+            import copy as _copy
+            items = _copy.deepcopy(items)
+            w = gen.spell(o.by_short["label"]) + "/" + rng.choice(["caf\u00e9", "na\u00efve-x", "\u00dcnit_7", "\u03b1\u03b2"])
+            items.append({"t": "tag", "name": w, "suffix": "", "node": None, "role": "raw", "raw": w})
+            rec.count("base-kind", "non-ascii-value")
         text = _with_ns(items, "")
         ptext = _with_ns(items, shard["ns"])
         ntags = sum(1 for t, _ in annot.walk(items) if t["t"] == "tag")
